@@ -317,6 +317,11 @@ func (g *docGen) commandStep() orderedJSON {
 			{"signed_fields", []any{g.str("sig"), g.str("sig")}}, {"value", g.str("sig")}})})
 	}
 	p = g.extras(p, g.mapSize(g.pick(3)))
+	if g.pick(6) == 0 {
+		// a key of a LOWER-priority family rides along as an ordinary extra key: the step is still a command step,
+		// wherever that key stands in the document and wherever the marshaller puts it
+		p = append(p, [][2]any{{"wait", nil}, {"waiter", "w"}, {"block", "b"}, {"trigger", "t"}, {"manual", nil}}[g.pick(5)])
+	}
 	g.rng.Shuffle(len(p), func(i, j int) { p[i], p[j] = p[j], p[i] })
 	return orderedJSON(p)
 }
@@ -332,6 +337,15 @@ func (g *docGen) contentStep(kindKey string) orderedJSON {
 		first = [2]any{kindKey, g.str("label")}
 	}
 	p := g.extras([][2]any{first}, g.mapSize(1+g.pick(3)))
+	if g.pick(5) == 0 {
+		// likewise for wait / input steps: a key of a later family is just another key of the step
+		lower := map[string][][2]any{"wait": {{"block", "b"}, {"trigger", "t"}, {"input", "i"}}, "waiter": {{"manual", "m"}, {"trigger", "t"}},
+			"block": {{"trigger", "t"}}, "input": {{"trigger", "t"}}, "manual": {{"trigger", "t"}}}[kindKey]
+		if len(lower) > 0 {
+			x := lower[g.pick(len(lower))]
+			p = append([][2]any{x}, p...) // written BEFORE the key that decides
+		}
+	}
 	return orderedJSON(p)
 }
 
